@@ -215,6 +215,9 @@ func AbsJSONValue(t *sdcpb.SchemaLeafType, v any) string {
 		if len(x) == 0 {
 			return "empty"
 		}
+	case int, int8, int16, int32, int64, uint, uint8, uint16, uint32, uint64, float32, float64:
+		// documents that were not serialised yet carry native Go numbers
+		return AbsScalarFromString(t, fmt.Sprint(x))
 	}
 	return fmt.Sprintf("badjsonval:%v", v)
 }
